@@ -1,14 +1,14 @@
 package sx
 
 import (
-	"io/fs"
 	"fmt"
-	"strconv"
-	"strings"
 	"go/token"
 	"go/types"
 	"hash/fnv"
+	"io/fs"
 	"math/big"
+	"strconv"
+	"strings"
 
 	"gabiverif/smt"
 
@@ -430,7 +430,7 @@ func registerKeygenModels(P *Program) {
 		}
 		so := args[0].(Pointer).C.V.(*StructObj)
 		so.F[0].V = smt.False // enabled
-		so.F[1].V = pb         // p
+		so.F[1].V = pb        // p
 		ex.stubs["common.FastMod with a symbolic modulus is plain reduction (its fast path is the subject of C19/FastMod)"] = true
 		return nil, true
 	}
@@ -575,6 +575,20 @@ func registerKeygenModels(P *Program) {
 		so := ex.cellOf(ex.zero(fn.Signature.Results().At(0).Type().(*types.Pointer).Elem()))
 		_ = so
 		return Tuple{Pointer{C: &Cell{ID: ex.cellSeq, V: &Opaque{Kind: "ecdsa.PrivateKey", Data: 99}}}, Iface{}}, true
+	}
+	// UnmarshalPrivateKey: the bytes "vpgood" are the one well-formed key, everything else is refused
+	m[signedPkg+".UnmarshalPrivateKey"] = func(ex *Exec, fn *ssa.Function, args []Value) (Value, bool) {
+		b := args[0].(Slice)
+		good := b.Len == 6
+		for i := 0; good && i < 6; i++ {
+			c, ok := term(ex.load(b.A.E[b.Off+i])).ConstInt64()
+			good = ok && byte(c) == "vpgood"[i]
+		}
+		if !good {
+			return Tuple{Pointer{}, ex.freshError("x509: failed to parse EC private key")}, true
+		}
+		ex.cellSeq++
+		return Tuple{Pointer{C: &Cell{ID: ex.cellSeq, V: &Opaque{Kind: "ecdsa.PrivateKey", Data: 98}}}, Iface{}}, true
 	}
 	for _, n := range []string{"MarshalPrivateKey", "MarshalPublicKey"} {
 		m[signedPkg+"."+n] = func(ex *Exec, fn *ssa.Function, args []Value) (Value, bool) {
@@ -801,6 +815,13 @@ func registerFsModels(P *Program) {
 			for i := 0; i < st.NumFields(); i++ {
 				if v, ok := vals[st.Field(i).Name()]; ok && st.Field(i).Name() != skip {
 					so.F[i].V = ex.newBig(bigConst(v))
+				}
+				// 5: an <ECDSA> element holding (the base64 text of) a well-formed key, 6: a garbled one
+				if st.Field(i).Name() == "ECDSAString" && missing == 5 {
+					so.F[i].V = "dnBnb29k"
+				}
+				if st.Field(i).Name() == "ECDSAString" && missing == 6 {
+					so.F[i].V = "!!garbage"
 				}
 			}
 			return Iface{}, true
